@@ -37,6 +37,7 @@ impl SwiftField for Field11R {
     where
         Self: Sized,
     {
+        super::swift_utils::require_ascii(input, "Field 11R")?;
         let mut remaining = input;
 
         // Parse message type (3!n)
@@ -196,6 +197,7 @@ impl SwiftField for Field11S {
     where
         Self: Sized,
     {
+        super::swift_utils::require_ascii(input, "Field 11S")?;
         let mut remaining = input;
 
         // Parse message type (3!n)
@@ -418,6 +420,7 @@ impl SwiftField for Field11 {
     where
         Self: Sized,
     {
+        super::swift_utils::require_ascii(input, "Field 11")?;
         // Field 11 requires at least 9 characters (3 for MT + 6 for date)
         if input.len() < 9 {
             return Err(ParseError::InvalidFormat {
